@@ -11,6 +11,7 @@ from ..core import rule
 from ..model import AnalysisError, nested_functions
 from ..effects import writes_in, is_call_to, root_attr
 from ..paths import must_on_all_paths, describe_exit, walk_no_nested, const_guard, write_implies_event
+from ..norm import Norm
 
 LEVEL = "other"
 
@@ -41,9 +42,23 @@ TRANSCRIBED_ENV = {
 def transcribed_env(ctx, *fis):
     """TRANSCRIBED_ENV plus every local name bound to one of its expressions (e.g. `is_transcribed = self.master is not None and ...`)."""
     env = dict(TRANSCRIBED_ENV)
+    canon = {Norm(None).key(ast.parse(t, mode="eval").body): v for t, v in TRANSCRIBED_ENV.items() if t not in ("transcribed",)}
     for fi in fis:
         if fi is None:
             continue
+        # tests written through local aliases (master = self.master) denote the same condition
+        nn = ctx.norm(fi)
+        for node in ast.walk(fi.node):
+            if isinstance(node, (ast.If, ast.IfExp, ast.Assign)):
+                t = node.test if not isinstance(node, ast.Assign) else node.value
+                for sub in ast.walk(t):
+                    if isinstance(sub, (ast.BoolOp, ast.Compare, ast.Attribute, ast.Name)) and hasattr(sub, "lineno"):
+                        try:
+                            k = nn.key(sub)
+                        except Exception:
+                            continue
+                        if k in canon:
+                            env[ast.unparse(sub)] = canon[k]
         for n in ast.walk(fi.node):
             if isinstance(n, ast.Assign) and len(n.targets) == 1 and isinstance(n.targets[0], ast.Name):
                 v = const_guard(n.value, TRANSCRIBED_ENV)
@@ -492,8 +507,8 @@ def r13_7(ctx):
     ctx.check(ok, "Stage._set_transcribed writes the master's flag", detail="invalidation recorded on the wrong object (sub-stage edits ignored)",
               expected="self.master._var_is_transcribed = val", found="; ".join(ast.unparse(w) for w in ws), fi=f)
     if ws:
-        gs = [(ast.unparse(t), p) for t, p in sc.guards(ws[0])]
-        ctx.check(gs == [("self.master", True), ("self._is_original", True)], "Stage._set_transcribed acts for every original stage attached to an OCP", detail="invalidation skipped",
+        gs = sorted((ast.unparse(t), p) for t, p in sc.guard_conjuncts(ws[0]))
+        ctx.check(gs == [("self._is_original", True), ("self.master", True)], "Stage._set_transcribed acts for every original stage attached to an OCP", detail="invalidation skipped",
                   expected="if self.master: if self._is_original:", found=gs, fi=f)
     g = prog.own_method("Stage", "_is_transcribed")
     rets = [(ast.unparse(r.value), [(ast.unparse(t), p) for t, p in ctx.scope(g).guards(r)]) for r in walk_no_nested(g.node) if isinstance(r, ast.Return)]
@@ -550,6 +565,7 @@ def r13_8(ctx):
                   node=(muts[0] if muts else None))
     f = prog.own_method("Stage", "set_initial")
     calls = [c for c in walk_no_nested(f.node) if is_call_to(c, "set_initial", "self._method")]
-    ok = len(calls) == 1 and [ast.unparse(a) for a in calls[0].args] == ["self._augmented", "self.master._method", "self._initial"]
+    nn = ctx.norm(f)
+    ok = len(calls) == 1 and [nn.key(a) for a in calls[0].args] == ["self._augmented", "self.master._method", "self._initial"]
     ctx.check(ok, "Stage.set_initial re-applies the whole guess table to the live transcription", detail="write-through call", expected="self._method.set_initial(self._augmented, self.master._method, self._initial)",
               found="; ".join(ast.unparse(c) for c in calls), fi=f)
